@@ -378,12 +378,14 @@ func procC02(t *Target, tier string, r *Result) {
 		baseO := EmptyObject(schema)
 		if res := t.callTo(baseS, &baseO); res.Panicked || len(res.errs()) > 0 {
 			r.outcome("base-to-failed")
+			r.violate("conversion-fails", panicShape(t, baseS), "CopyTo of a base value into an empty object fails, the mapping cannot be observed: "+res.Panic+diagText(res.errs()), nil)
 			continue
 		}
 		r.Transitions++
 		baseBack := t.New()
 		if res := t.callFrom(baseO, baseBack); res.Panicked || len(res.errs()) > 0 {
 			r.outcome("base-from-failed")
+			r.violate("conversion-fails", panicShape(t, baseS), "CopyFrom of a written base value fails, the mapping cannot be observed: "+res.Panic+diagText(res.errs()), nil)
 			continue
 		}
 		r.Transitions++
@@ -408,6 +410,7 @@ func procC02(t *Target, tier string, r *Result) {
 				o := EmptyObject(schema)
 				if res := t.callTo(s, &o); res.Panicked || len(res.errs()) > 0 {
 					r.outcome("probe-to-failed")
+					r.violate("conversion-fails", panicShape(t, s), "CopyTo of a probe value fails: "+res.Panic+diagText(res.errs()), w)
 					continue
 				}
 				r.Transitions++
@@ -438,6 +441,7 @@ func procC02(t *Target, tier string, r *Result) {
 				back := t.New()
 				if res := t.callFrom(o, back); res.Panicked || len(res.errs()) > 0 {
 					r.outcome("probe-from-failed")
+					r.violate("conversion-fails", panicShape(t, s), "CopyFrom of a written probe value fails: "+res.Panic+diagText(res.errs()), w)
 					continue
 				}
 				r.Transitions++
